@@ -60,6 +60,7 @@ type Check struct {
 	knowns   []known
 	replay   *Replay
 	replayed bool
+	worker   string // non-empty: this process is a worker for that part
 	internal []string
 	knownHit map[string]string
 }
@@ -76,6 +77,9 @@ func New(id, level string, args []string) *Check {
 		switch a := args[i]; a {
 		case "quick", "thorough":
 			k.Tier = a
+		case "--worker":
+			i++
+			k.worker = args[i]
 		case "--replay":
 			i++
 			data, err := os.ReadFile(args[i])
@@ -164,6 +168,9 @@ func (k *Check) matchKnown(sig string) *known {
 
 // Explore runs one named part (or replays it when --replay names it).
 func (k *Check) Explore(name string, cfg mc.Config, param any, body func(*mc.Ctx)) *mc.Result {
+	if k.worker != "" {
+		return &mc.Result{Name: name, Notes: map[string]int64{}}
+	}
 	if k.replay != nil {
 		if k.replay.Part != name {
 			return &mc.Result{Name: name, Notes: map[string]int64{}}
@@ -204,6 +211,39 @@ func (k *Check) Explore(name string, cfg mc.Config, param any, body func(*mc.Ctx
 	return r
 }
 
+// ExploreProc is Explore with the subtrees explored by worker processes (for code with
+// process-global state or that may take the process down).
+func (k *Check) ExploreProc(name string, cfg mc.Config, param any, body func(*mc.Ctx)) *mc.Result {
+	if k.replay != nil {
+		return k.Explore(name, cfg, param, body)
+	}
+	cfg.IsKnown = func(sig string) bool { return k.matchKnown(sig) != nil }
+	if k.worker != "" {
+		if k.worker == name {
+			mc.ServeWorker(name, cfg, param, body)
+		}
+		return &mc.Result{Name: name, Notes: map[string]int64{}}
+	}
+	if cfg.Deadline == 0 {
+		cfg.Deadline = k.deadline
+	}
+	if cfg.Deadline > 0 && mc.Wall() > cfg.Deadline {
+		r := &mc.Result{Name: name, Notes: map[string]int64{}, Exhaustive: false, Bound: cfg.Bound}
+		k.parts = append(k.parts, r)
+		return r
+	}
+	procs := cfg.Workers
+	if procs == 0 {
+		procs = k.Workers
+	}
+	spec := mc.WorkerSpec{Args: []string{k.ID, k.Tier, "--worker", name}, Procs: procs, Env: []string{"GOMAXPROCS=2"}}
+	r := mc.ExploreSharded(name, cfg, spec, param, body)
+	k.parts = append(k.parts, r)
+	fmt.Fprintf(os.Stderr, "[%s] %-40s execs=%-9d points=%-10d outcomes=%-7d nontrivial=%-7d states=%-7d viol=%d known=%d exhaustive=%v %.1fs\n",
+		k.ID, name, r.Execs, r.Points, r.Outcomes, r.Nontrivial, r.States, len(r.Violations), len(r.Known), r.Exhaustive, r.WallS)
+	return r
+}
+
 // AddResult lets a harness with its own enumeration loop contribute a part.
 func (k *Check) AddResult(r *mc.Result) {
 	if r.Notes == nil {
@@ -224,6 +264,9 @@ func (k *Check) Replaying() (bool, string) {
 
 // Finish writes the evidence file, prints verdict lines and exits.
 func (k *Check) Finish() {
+	if k.worker != "" {
+		fatal("worker part %q not found in check %s", k.worker, k.ID)
+	}
 	if k.replay != nil {
 		if !k.replayed {
 			fatal("replay part %q not found in check %s", k.replay.Part, k.ID)
